@@ -244,6 +244,11 @@ def family(tier):
     dom = [("Boolean",)] * 3 + [("Real", -INF, INF)] * 2 + [("IntegerRange", 0, 10)] * 2
     rows = [("", [1.0] * n, "LessOrEqual", 1.0)]
     models.append(("domains:grouped", make_model(NAMES, dom, "Min", [1.0] * n, 0.0, rows), (NAMES, dom, "Min", [1.0] * n, 0.0, rows)))
+    # domains that differ by less than any tolerance the crate uses: two variables are written on one line only when their
+    # domains are the same domain
+    dom = [("Real", 0.0, 0.000001), ("Real", 0.0, 0.000003), ("NonNegativeReal", 0.0, 1.0), ("NonNegativeReal", 0.0, 1.000004), ("NonNegativeReal", 0.0, INF), ("NonNegativeReal", 0.000002, INF), ("Real", -1e-9, 5.0)]
+    rows = [("", [1.0] * n, "LessOrEqual", 1.0)]
+    models.append(("domains:near", make_model(NAMES, dom, "Max", [1.0] * n, 0.0, rows), (NAMES, dom, "Max", [1.0] * n, 0.0, rows)))
     # a model assembled through the public API (LinearModel::add_variable, DomainVariable::new): the usage marks the
     # compile pipeline keeps are all zero, the model is the same model
     for k in range(len(DOMAINS)):
